@@ -71,6 +71,39 @@ func MultiFilePackage(pkg, goName string) (types, service, unrelated *spec.File)
 	return
 }
 
+// SiblingFiles: three files of one proto package and one Go package, all generated in one invocation: a
+// service file, the models file it imports, and an audit file that nothing imports. Every message
+// carries field examples, rules and JSON-mapping annotations, so whatever a generator collects per
+// file (example tables, codec lists, schema sets) would show a leak from a sibling.
+func SiblingFiles(pkg, goName string) []*spec.File {
+	ex := func(v ...string) func(a *spec.Ann) { return func(a *spec.Ann) { a.Examples = v } }
+	dir := "siblings/" + goName + "/"
+	mk := func(n string) *spec.File {
+		return &spec.File{Path: dir + n + ".proto", Package: pkg, GoImport: "lab/gen/" + goName, GoName: goName}
+	}
+	models := mk("models")
+	models.Messages = []*spec.Message{
+		{Name: "Product", Fields: []*spec.Field{spec.F("title", 1, spec.String).With(ex("Lamp", "Desk")), spec.F("price_cents", 2, spec.Int64).With(func(a *spec.Ann) { a.Int64Enc = 2; a.Examples = []string{"1999"} }),
+			spec.FM("listed_at", 3, spec.Timestamp).With(func(a *spec.Ann) { a.TSFormat = 2 })}},
+		{Name: "ProductList", Fields: []*spec.Field{spec.FM("products", 1, "."+pkg+".Product").Rep().With(func(a *spec.Ann) { a.Unwrap = true })}},
+	}
+	audit := mk("audit")
+	audit.Enums = []*spec.EnumDef{{Name: "Action", Values: []spec.EnumValue{{Name: "ACTION_UNSPECIFIED", Num: 0}, {Name: "ACTION_CREATE", Num: 1, JSON: spec.S("create")}}}}
+	audit.Messages = []*spec.Message{
+		{Name: "AuditEntry", Fields: []*spec.Field{spec.F("actor", 1, spec.String).With(ex("root", "alice")), spec.F("title", 2, spec.String).With(ex("audit-title")), spec.FE("action", 3, "."+pkg+".Action"),
+			spec.F("payload", 4, spec.Bytes).With(func(a *spec.Ann) { a.BytesEnc = 5 }), spec.FM("at", 5, spec.Timestamp).With(func(a *spec.Ann) { a.TSFormat = 3 })}},
+		{Name: "Another", Fields: []*spec.Field{spec.F("big", 1, spec.Uint64).With(func(a *spec.Ann) { a.Int64Enc = 2; a.Examples = []string{"7"} })}},
+	}
+	svc := mk("service")
+	svc.Imports = []string{models.Path}
+	svc.Messages = []*spec.Message{
+		{Name: "FindRequest", Fields: []*spec.Field{spec.F("query", 1, spec.String).With(ex("lamp"))}},
+		{Name: "FindResponse", Fields: []*spec.Field{spec.FM("best", 1, "."+pkg+".Product"), spec.FM("by_shelf", 2, "."+pkg+".ProductList").MapOf(spec.String), spec.F("title", 3, spec.String).With(ex("results"))}},
+	}
+	svc.Services = []*spec.Service{{Name: "ShopService", BasePath: spec.S("/shop"), Methods: []*spec.Method{{Name: "Find", In: "." + pkg + ".FindRequest", Out: "." + pkg + ".FindResponse", HTTP: &spec.HTTP{Path: "/find", Verb: 2}}}}}
+	return []*spec.File{models, audit, svc}
+}
+
 // ManyTypesFile has many messages and enums (emission-order probe for type declarations/schemas).
 func ManyTypesFile(pkg, goName string) *spec.File {
 	f := &spec.File{Path: "misc/" + goName + "/many.proto", Package: pkg, GoImport: "lab/gen/" + goName, GoName: goName}
